@@ -755,6 +755,108 @@ def rule_r6(prog, res) -> None:
         raise AnalysisError(f"C17.R6: only {n} arithmetic operator methods found on the containers, minimum 8")
 
 
+def rule_r8(prog, res) -> None:
+    """derived containers keep the state of the original: an instance method that builds a new instance of its own
+    class (type(self)(…), self.__class__(…), ClassName(…)) passes every constructor parameter that has a default and
+    names an attribute of the instance — otherwise the copy / selection / sum silently carries the default (e.g. a
+    copied binning that is always closed on the right) and no longer equals or combines with its source"""
+    n = 0
+    for fi in prog.funcs:
+        if fi.cls is None or fi.is_staticmethod or fi.is_classmethod or not fi.module.name.startswith("yaw."):
+            continue
+        init = prog.find_method(fi.cls, "__init__")
+        if init is None:
+            continue
+        a = init.node.args
+        pos = [p_.arg for p_ in a.args][1:]
+        dflt = {p_.arg for p_ in a.args[len(a.args) - len(a.defaults) :]} | {p_.arg for p_, d in zip(a.kwonlyargs, a.kw_defaults) if d is not None}
+        attrs = set(prog.all_slots(fi.cls)) | {m_ for c_ in prog.mro(fi.cls) if isinstance(c_, ClassInfo) for m_ in c_.methods} | {x for c_ in prog.mro(fi.cls) if isinstance(c_, ClassInfo) for x in getattr(c_, "inst_attrs", {})}
+        state = dflt & attrs
+        for c in calls_in(fi):
+            f = unparse(c.func)
+            if f not in ("type(self)", "self.__class__", fi.cls.name):
+                continue
+            if any(isinstance(x, ast.Starred) for x in c.args) or any(k.arg is None for k in c.keywords):
+                continue
+            n += 1
+            res.touch(fi)
+            given = set(pos[: len(c.args)]) | {k.arg for k in c.keywords}
+            missing = sorted(state - given)
+            if missing:
+                res.violation(
+                    "C17.R8",
+                    fi,
+                    c,
+                    f"{fi.cls.name}.{fi.name} builds a new {fi.cls.name} without passing {missing}: the new object silently takes the constructor default instead of the value of the original",
+                    key_extra=f"derived-drops-{fi.cls.name}-{fi.name}-{'-'.join(missing)}",
+                )
+            else:
+                res.ok("C17.R8", res.site(fi, f"{f}(…)"), f"passes all state-carrying defaulted parameters ({sorted(state) or 'none'})", nontrivial=bool(state))
+    if n < 15:
+        raise AnalysisError(f"C17.R8: only {n} constructions of the method's own class found, minimum 15")
+
+
+def rule_r9(prog, res) -> None:
+    """iterators restart on iter(): a class that implements the iterator protocol on itself (`__iter__` returns self)
+    resets in `__iter__`, on every path, each counter that `__next__` advances — an iterator that only rewinds when it
+    is exhausted resumes in the middle after a partial pass (peek, break, zip with a shorter sequence), so a second
+    loop over the same indexer silently yields only the trailing bins / patches. Decided on the symbolic store of
+    `__iter__` (helpers such as a reset method looked through)."""
+    from .. import symx
+
+    n = 0
+    for ci in prog.classes:
+        nxt = ci.methods.get("__next__") or (prog.find_method(ci, "__next__") if ci.methods.get("__iter__") else None)
+        it = prog.find_method(ci, "__iter__")
+        if nxt is None or it is None or nxt.is_abstract or not ci.module.name.startswith("yaw."):
+            continue
+        # counters: attributes of self that __next__ both reads and advances
+        adv = set()
+        for x in walk_no_nested(nxt.node):
+            if isinstance(x, ast.AugAssign) and isinstance(x.target, ast.Attribute) and isinstance(x.target.value, ast.Name) and x.target.value.id == "self":
+                adv.add(x.target.attr)
+            if isinstance(x, ast.Assign):
+                for t in x.targets:
+                    if isinstance(t, ast.Attribute) and isinstance(t.value, ast.Name) and t.value.id == "self" and any(isinstance(y, ast.Attribute) and y.attr == t.attr and isinstance(y.value, ast.Name) and y.value.id == "self" for y in ast.walk(x.value)):
+                        adv.add(t.attr)
+        if not adv:
+            continue
+        paths = [p for p in symx.explore(prog, it, inline=lambda caller, call, callee: callee.cls is not None and callee.name not in ("__next__", "__iter__")) if p.outcome == "return"]
+        if not paths:
+            continue
+        returns_self = all(isinstance(p.value, ast.Name) and p.value.id == "self" for p in paths)
+        if not returns_self:
+            continue  # a fresh iterator object per pass
+        n += 1
+        res.touch(it)
+        # a reset method that subclasses override is not looked through by the symbolic store: a call of a method of
+        # the hierarchy that stores the counter counts as the reset (that overrides chain up is C18.R2's business)
+        def resets_via_call(p, attr) -> bool:
+            for ev in p.calls():
+                f_ = ev.expr.func
+                if isinstance(f_, ast.Attribute) and isinstance(f_.value, ast.Name) and f_.value.id == "self":
+                    for c_ in [k for k in prog.mro(ci) if isinstance(k, ClassInfo)]:
+                        m_ = c_.methods.get(f_.attr)
+                        if m_ is not None and any(isinstance(y, ast.Attribute) and isinstance(y.ctx, ast.Store) and y.attr == attr for y in walk_no_nested(m_.node)):
+                            return True
+            return False
+
+        missing = sorted(a_ for a_ in adv if any(f"self.{a_}" not in p.store and not resets_via_call(p, a_) for p in paths))
+        if missing:
+            res.violation(
+                "C17.R9",
+                it,
+                it.node,
+                f"{ci.name}.__iter__ returns self without resetting {missing}, which __next__ advances: after a partial pass a new loop over the same object resumes where the last one stopped "
+                "and yields only the remaining items",
+                key_extra=f"iter-no-reset-{ci.name}",
+            )
+        else:
+            res.ok("C17.R9", res.site(it), f"every pass starts with {sorted(adv)} reset")
+    if n < 2:
+        raise AnalysisError(f"C17.R9: only {n} self-iterators found, minimum 2")
+
+
 RULES = [
     ("C17.R1", rule_r1, QUICK),
     ("C17.R2", rule_r2, QUICK),
@@ -763,4 +865,6 @@ RULES = [
     ("C17.R5", rule_r5, QUICK),
     ("C17.R6", rule_r6, QUICK),
     ("C17.R7", rule_r7, QUICK),
+    ("C17.R8", rule_r8, QUICK),
+    ("C17.R9", rule_r9, QUICK),
 ]
